@@ -373,6 +373,11 @@ func (m *Map[K, V]) decodeInto(target any) error {
 			// Look for aliases, and choose the first with a value.
 			atag, _ := field.Tag.Lookup("aliases")
 			for _, alias := range strings.Split(atag, ",") {
+				if alias == "" {
+					// No aliases tag (strings.Split("", ",") yields [""]), or
+					// an empty entry in the list: not an alias.
+					continue
+				}
 				value, has = tm.Get(alias)
 				if has {
 					key = alias
